@@ -387,6 +387,76 @@ def cstep (maxDur : Nat) (s : CState) : Ev → CState
 
 def crun (maxDur : Nat) (s : CState) (evs : List Ev) : CState := evs.foldl (cstep maxDur) s
 
+/-! ## overlapping `IsAdminUser` calls (slow directory)
+
+`IsAdminUser` is not atomic: it reads the cache (`Get`), then — only for an invalid entry — asks the
+directory, then writes (`Put`). A call whose question the directory is slow to answer is *pending*
+between the two; other calls run meanwhile. A pending call keeps what its `Get` returned (the
+fallback value of the error branch). The directory decides when it answers. -/
+
+structure Pending where
+  id : Nat
+  user : Name
+  /-- `isAdmin` as returned by the call's `Get` (value of an expired or missing entry) -/
+  stale : Bool
+  staleOrigin : Option Nat
+deriving DecidableEq, Repr
+
+structure KState where
+  c : CState
+  pend : List Pending
+  next : Nat
+
+def KState.init (t0 : Nat) : KState := { c := CState.init t0, pend := [], next := 0 }
+
+inductive KEv
+  | advance (d : Nat)
+  /-- a call starts; `dir`: what the directory answers now; `hold`: its question (if it asks one)
+  stays unanswered until the matching `release` -/
+  | begin (u : Name) (dir : Option Bool) (hold : Bool)
+  /-- the directory answers the question of the `k`-th begun call: `dir` -/
+  | release (k : Nat) (dir : Option Bool)
+deriving DecidableEq, Repr
+
+/-- second half of `IsAdminUser` (entry was not valid): the directory's answer arrives -/
+def finishStep (s : CState) (u : Name) (stale : Bool) (staleOrigin : Option Nat) (dir : Option Bool) : CState :=
+  match dir with
+  | some v =>
+    { s with cache := s.cache.upd u ⟨v, s.now, some s.now⟩,
+             consults := ⟨s.now, u, some v⟩ :: s.consults,
+             rets := ⟨s.now, u, v, some s.now⟩ :: s.rets }
+  | none =>
+    { s with cache := s.cache.upd u ⟨stale, s.now, staleOrigin⟩,
+             consults := ⟨s.now, u, none⟩ :: s.consults,
+             rets := ⟨s.now, u, stale, staleOrigin⟩ :: s.rets }
+
+def offer (s : CState) (u : Name) (dir : Option Bool) : CState :=
+  { s with offered := ⟨s.now, u, dir⟩ :: s.offered }
+
+def kstep (maxDur : Nat) (s : KState) : KEv → KState
+  | .advance d => { s with c := { s.c with now := s.c.now + d } }
+  | .begin u dir hold =>
+    if (Cache.get maxDur s.c.cache s.c.now u).2 then
+      { s with c := { offer s.c u dir with
+                      rets := ⟨s.c.now, u, (Cache.get maxDur s.c.cache s.c.now u).1, s.c.cache.cachedOrigin u⟩ :: s.c.rets },
+               next := s.next + 1 }
+    else if hold then
+      { s with c := offer s.c u dir,
+               pend := ⟨s.next, u, (Cache.get maxDur s.c.cache s.c.now u).1, s.c.cache.cachedOrigin u⟩ :: s.pend,
+               next := s.next + 1 }
+    else
+      { s with c := finishStep (offer s.c u dir) u (Cache.get maxDur s.c.cache s.c.now u).1 (s.c.cache.cachedOrigin u) dir,
+               next := s.next + 1 }
+  | .release k dir =>
+    match s.pend.find? (fun p => p.id == k) with
+    | none => s
+    | some p =>
+      { s with c := finishStep (offer s.c p.user dir) p.user p.stale p.staleOrigin dir,
+               pend := s.pend.filter (fun q => q.id != k) }
+
+def krun (maxDur : Nat) (s : KState) (evs : List KEv) : KState := evs.foldl (kstep maxDur) s
+
+
 
 /-! ## the profile store: a row is looked up under exactly the key the handler uses
 
